@@ -477,9 +477,9 @@ pub fn run_case(_cfg: &RunCfg, case: &Case) -> Verdict {
             sc.shutdown_blocks = *shutdown_blocks;
             // A peer that stops reading *before* a response is flushed keeps the server in its
             // normal writing state (no write timeout is claimed by the property); the shutdown
-            // has not started then. "Never reads" is therefore applied where the decision itself
-            // produces the unflushable bytes (408) or nothing needs flushing (keep-alive expiry).
-            let never_reads = &(*never_reads && matches!(trigger, Trigger::Head408 | Trigger::KaExpiry));
+            // has not started then; the same holds for an unflushable 408. "Never reads" is
+            // therefore applied only where nothing needs flushing (keep-alive expiry).
+            let never_reads = &(*never_reads && matches!(trigger, Trigger::KaExpiry));
             if *never_reads {
                 // the peer stops reading at the moment of the decision: what is written afterwards
                 // (408, nothing for the other triggers) cannot be flushed
@@ -489,7 +489,7 @@ pub fn run_case(_cfg: &RunCfg, case: &Case) -> Verdict {
                 return Verdict::ok().class("armed-on-clock-tick-not-judged");
             }
             let out = h1engine::run(sc);
-            let obstructed = *shutdown_blocks || (*never_reads && matches!(trigger, Trigger::Head408));
+            let obstructed = *shutdown_blocks;
             let v = Verdict::ok()
                 .nt(d > 0 && obstructed)
                 .class_if(d == 0, "disconnect-timeout-disabled")
@@ -523,6 +523,18 @@ pub fn run_case(_cfg: &RunCfg, case: &Case) -> Verdict {
                     return v.fail_with(format!(
                         "decision at {t_decide} ms ({trigger:?}), nothing obstructs the shutdown, yet the task {}",
                         if stalled { "never completed".to_string() } else { format!("completed at {end} ms") }
+                    ));
+                }
+            }
+            // a peer that half-closes while the server lingers (or waits in an unobstructed
+            // shutdown) ends the wait at once: the task must not sleep on until the timer fires
+            // (a half-close seen *before* lingering starts is not looked at again: the linger then
+            // lasts its full time — slow, but bounded, and not claimed otherwise)
+            if let PeerEnd::EofAfter(ms) = peer {
+                let t_eof = (t_decide + *ms as i64).max(0);
+                if *ms > 0 && !obstructed && !stalled && end > t_eof.max(t_decide) + EPS + 1 && matches!(trigger, Trigger::UnreadBody | Trigger::CloseResponse) {
+                    return v.fail_with(format!(
+                        "peer half-closed at {t_eof} ms while the server was ending the connection (decision at {t_decide} ms, {trigger:?}, disconnect timeout {d} ms) but the task completed only at {end} ms"
                     ));
                 }
             }
